@@ -343,6 +343,17 @@ pub fn shrink_cli(start: &CliCase, fails: &mut dyn FnMut(&CliCase) -> bool, max_
             false
         }
     };
+    if cur.sweep {
+        // a failing sweep is reduced to the one plan that fails
+        for p in crate::cli::single_fault_plans() {
+            let mut c = cur.clone();
+            c.sweep = false;
+            c.plan = vec![p];
+            if attempt(&mut cur, c, &mut evals) {
+                break;
+            }
+        }
+    }
     loop {
         let mut progress = false;
         // fewer faults
